@@ -60,7 +60,7 @@ def spec(tier, seed):
             return [{"name": "bmc-translate", "verdict": "CANNOT_CONFIRM", "message": "bytecode not recognised: %s" % e, "sample": "dis(hy.core.util.gensym)",
                      "paths": 0, "queries": 0, "solver_s": 0.0, "group": "bmc", "twin": False}]
         desc = [(k, off) for k, off, _ in steps]
-        configs = [(2, 1), (3, 1), (2, 2)] if tier_ == "quick" else [(2, 1), (3, 1), (2, 2), (4, 1), (3, 2), (2, 3)]
+        configs = [(2, 1), (3, 1), (2, 2)] if tier_ == "quick" else [(2, 1), (3, 1), (2, 2), (4, 1), (3, 2), (2, 3), (5, 1), (6, 1), (7, 1), (3, 3), (4, 2)]
         for T, calls in configs:
             t0 = time.time()
             res = bmc.check(steps, T, calls)
@@ -102,7 +102,7 @@ def spec(tier, seed):
         "functions_encoded": ["hy.core.util.gensym: critical section translated from its bytecode (vf/bmc.py); whole function traced for the argument clause", "hy.reader.mangling.mangle"],
         "bounds": "(a) %s threads x calls, every interleaving of the shared steps (acquire, counter read, counter write, counter read into n, release), symbolic initial counter; "
                   "(b) argument strings of length <= %d over the alphabet %r (first character fixed per obligation)" % (
-                      "(2,1) (3,1) (2,2)" if tier == "quick" else "(2,1) (3,1) (2,2) (4,1) (3,2) (2,3)", maxlen, ALPH),
+                      "(2,1) (3,1) (2,2)" if tier == "quick" else "(2,1) (3,1) (2,2) (4,1) (3,2) (2,3) (5,1) (6,1) (7,1) (3,3) (4,2)", maxlen, ALPH),
         "outside": "more threads/calls; free-threaded builds; arguments outside the alphabet; non-str arguments; distinctness across different argument strings relies on n being distinct "
                    "(the formatted name is injective in n for a fixed separator)",
         "stubs": ["threading.Lock modelled as a mutex (enabled iff free)"],
